@@ -110,6 +110,7 @@ def observe_msg(mid, mabs, seed):
                     e.id, e.slug, repr(e)
                 return out
             obs["carried"] = get("carried", carried, [])
+        before_text, before_exp = str(m), exposure(m, mabs["cls"])
         buf = io.StringIO()
         try:
             with contextlib.redirect_stdout(buf):
@@ -117,6 +118,16 @@ def observe_msg(mid, mabs, seed):
         except Exception as e:  # noqa: BLE001
             obs["inspect_ok"] = False
             obs["inspect_error"] = type(e).__name__
+        # printing an outline must not change the message: same serialisation, same exposure, accessors still work
+        if str(m) != before_text or exposure(m, mabs["cls"]) != before_exp:
+            obs["inspect_ok"] = False
+            obs["inspect_error"] = "inspect() changed the message"
+        if mabs["cls"] == "RunningOrderReplace":
+            try:
+                m.stories, m.start_time, m.duration
+            except Exception as e:  # noqa: BLE001
+                obs["inspect_ok"] = False
+                obs["inspect_error"] = "accessors raise after inspect(): " + type(e).__name__
         out = buf.getvalue()
         named = [s for s in obs["sources"] if s != NONE] + [c["id"] for c in obs["carried"] if c["id"] != NONE]
         obs["mentions"] = all(n in out for n in named)
